@@ -82,7 +82,14 @@ pub fn gen_name(rng: &mut Rng, allow_slash_end: bool) -> String {
         1 => "a".to_string(),
         2 => "app/instance".to_string(),
         3 => "é中😀 space".to_string(),
-        4 if allow_slash_end => "live/".to_string(),
+        4 if allow_slash_end => {
+            // (application names only) a trailing slash, or no name at all
+            if rng.chance(1, 3) {
+                String::new()
+            } else {
+                "live/".to_string()
+            }
+        }
         5 => {
             // up to 300 bytes, ASCII or multi-byte characters behind 0-3 ASCII ones (so that every
             // byte offset falls inside a character in some name)
